@@ -120,6 +120,8 @@ func (e *Encoder) writeValue(val reflect.Value, tagType byte) error {
 				data = val.Bytes()
 			case reflect.Int8:
 				data = unsafe.Slice((*byte)(val.UnsafePointer()), val.Len())
+			default:
+				return errors.New("value typed " + val.Type().String() + " is not allowed in TagByteArray")
 			}
 			_, err := e.w.Write(data)
 			return err
